@@ -176,7 +176,7 @@ def gen(rng, cid, sbo=0):
     ops.append('arm 0')
     for i in range(n):
         ops.append(f'del {i}')       # `invalid` (refused by both sides) for slots that are not constructed
-    hdr = f'case {cid} kinds={kinds}' + (' sbo=1' if sbo else '')
+    hdr = f'case {cid} kinds={kinds}' + (' sbo=1' if sbo else '') + (' conv=1' if rng.below(4) == 0 else '')
     return hdr + '\nthread 0: ' + ' ; '.join(ops) + ' ;\nendcase'
 
 
